@@ -38,11 +38,20 @@ def check(spec: dict) -> core.CaseResult:
     return dagprop.result(obs, findings, nt, labels, hang_is_violation=True, prop='C10')
 
 
+def judge_obs(case: dict, obs) -> core.CaseResult:
+    ex = oracles.expect_for(case, obs)
+    failing = any(s == 'failed' for s in ex.status.values())
+    return core.CaseResult(findings=oracles.c10_isolation(case, obs, ex), nontrivial=failing and len(case['nodes']) >= 2, labels=('exhaustive-small',), summary=None)
+
+
 def plan(tier: str) -> list[dict]:
-    return dagprop.std_plan(tier, controlled=(11, 120, 2500), serial=(1, 60, 1200), fork=(3, 20, 500), spawn=(1, 6, 120))
+    return list(dagprop.std_plan(tier, controlled=(11, 120, 2500), serial=(1, 60, 1200), fork=(3, 20, 500), spawn=(1, 6, 120))) + dagprop.exhaustive_jobs(tier, 4)
 
 
 def run_job(rec: core.Recorder, job: dict, seed: int) -> None:
+    if job['engine'] == 'exhaustive-small':
+        dagprop.run_exhaustive_job(rec, job, judge_obs, failing=True, cached=False)
+        return
     eng = job['engine']
     fail = ['raise:ValueError', 'raise:KeyError', 'raise:CustomErr', 'raise:UnpicklableErr', 'exit', 'baseexc', 'raisefrom']
     if eng != 'serial':
